@@ -39,10 +39,14 @@ endif()
 def base_module(seed, tier, j):
     if j % 4 == 3:
         return PLAIN
-    rng = case_rng("C06-mod", seed, tier, j)
-    b = Builder(rng, p_doc=0.5, max_depth=2, max_items=4, allow_dangling=False, hostile_names=False,
-                kinds=["function", "macro", "option", "set", "ct_add_test", "cpp_class", "generic", "plain", "block"])
-    text = render(b.module(), Layout(rng, comments=0.15, wild=0.1, case="lower")) + FIXED
+    # base modules are kept short (every byte position is mutated by every fault kind): retry until <= 900 characters
+    for attempt in range(20):
+        rng = case_rng("C06-mod", seed, tier, j * 100 + attempt)
+        b = Builder(rng, p_doc=0.5, max_depth=2, max_items=3, allow_dangling=False, hostile_names=False, p_clone=0.0,
+                    kinds=["function", "macro", "option", "set", "ct_add_test", "cpp_class", "generic", "plain", "block"])
+        text = render(b.module(), Layout(rng, comments=0.15, wild=0.1, case="lower")) + FIXED
+        if len(text) <= 900:
+            break
     return text
 
 
